@@ -76,21 +76,40 @@ Proof. exact labels_undefined_without_validation. Qed.
        extraction returns Ok or Err; it is Ok exactly for the consistent ones (data length = bytes per pixel
        x width x height of a known format), and an inconsistent one is a diagnostic *)
 Theorem C16_extract_total : forall t,
-  tex_in_range t -> ok_or_err (produce_image gen_color_formats gen_extract_guard t).
+  tex_ok_for gen_extract_bound t -> ok_or_err (produce_image gen_color_formats gen_extract_guard gen_extract_bound t).
 Proof.
-  intros t R. destruct C16_tables_wf as (_ & _ & W & G). rewrite G. now apply extract_total_guarded.
+  intros t R. destruct C16_tables_wf as (_ & _ & W & G). rewrite G. apply extract_total_guarded; [exact W | | exact R].
+  vm_compute. repeat split; discriminate.
 Qed.
+
+(* on the current tree the generated bound is the one of fix d8a7ff5: extraction is total for EVERY offset pair
+   (before the fix: only for offsets whose padded image fits the address space, see extract_offset_refuted) *)
+Theorem C16_extract_total_any_offset : forall t,
+  gen_extract_bound <> None -> tex_dims_ok t ->
+  ok_or_err (produce_image gen_color_formats gen_extract_guard gen_extract_bound t).
+Proof.
+  intros t Hb D. apply C16_extract_total. destruct gen_extract_bound; [exact D | contradiction].
+Qed.
+Example C16_extract_bound_present : gen_extract_bound <> None.
+Proof. discriminate. Qed.
 
 Theorem C16_extract_consistent_ok : forall t,
   tex_consistent gen_color_formats t -> tex_in_range t ->
-  produce_image gen_color_formats gen_extract_guard t = Ok tt.
-Proof. intros t. apply extract_consistent_ok. Qed.
+  match gen_extract_bound with Some b => (t_w t + t_ox t) * (t_h t + t_oy t) <= b | None => True end ->
+  produce_image gen_color_formats gen_extract_guard gen_extract_bound t = Ok tt.
+Proof.
+  intros t C R. destruct gen_extract_bound as [b|] eqn:E.
+  - intros Hp. destruct R as (Hw & Hh & Hx & Hy & B1 & B2 & Ha).
+    assert (Hb : 4 * b <= ALLOC_LIMIT) by (unfold gen_extract_bound in E; inversion E; subst b; vm_compute; discriminate).
+    apply extract_consistent_ok_bound; [exact Hb | exact C | repeat split; lia | exact B1 | exact B2 | exact Hp].
+  - intros _. now apply extract_consistent_ok.
+Qed.
 
 Theorem C16_extract_inconsistent_err : forall t c,
   find_fmt gen_color_formats (t_fmt t) = Some c -> t_len t <> cf_bpp c * t_w t * t_h t ->
-  produce_image gen_color_formats gen_extract_guard t = Err E_TEXSIZE.
+  produce_image gen_color_formats gen_extract_guard gen_extract_bound t = Err E_TEXSIZE.
 Proof.
-  intros t c F N. destruct C16_tables_wf as (_ & _ & _ & G). rewrite G. exact (extract_inconsistent_err gen_color_formats t c F N).
+  intros t c F N. destruct C16_tables_wf as (_ & _ & _ & G). rewrite G. exact (extract_inconsistent_err gen_color_formats gen_extract_bound t c F N).
 Qed.
 
 (* (6) decode_total: the blob decoder (decode_args_with_abi) is Ok or Err for every blob and every signature
